@@ -150,8 +150,15 @@ func (p *sparser) expr() SExpr {
 			}
 			q.Vars = append(q.Vars, id.v)
 			sort := "int"
-			if p.peek().k == "id" {
-				sort = p.next().v
+			if !(p.isOp(",") || p.isOp("::")) {
+				sort = ""
+				for !(p.isOp(",") || p.isOp("::")) {
+					t := p.next()
+					if t.k == "eof" {
+						panic("unterminated quantifier binder")
+					}
+					sort += t.v
+				}
 			}
 			q.Sorts = append(q.Sorts, sort)
 			if p.isOp(",") {
